@@ -318,6 +318,15 @@ def has_bad_model(v):
     return model_param_status(v) == "bad"
 
 
+def params_status(params):
+    """Status of the ARGUMENTS of a request: the members of an array, the values of an object.
+    The params container itself is never a model: a named-params object that happens to have a
+    member called "__model__" just passes a keyword argument of that name."""
+    values = list(params.values()) if isinstance(params, dict) else params if isinstance(params, list) else []
+    parts = [model_param_status(v) for v in values]
+    return "bad" if "bad" in parts else "unknown" if "unknown" in parts else "ok"
+
+
 CLASS_NAMES = ("Ref", "Image", "Artist", "Album", "Track", "TlTrack", "Playlist", "SearchResult")
 
 
@@ -339,9 +348,9 @@ def element_class(j):
     if "params" in j and not isinstance(j["params"], list | dict):
         return "invalid"
     i = j.get("id")
-    if isinstance(i, list | dict) or set(j) - KNOWN or has_bad_model(j.get("params")):
+    if isinstance(i, list | dict) or set(j) - KNOWN or params_status(j.get("params")) == "bad":
         return "invalid_by_model"
-    if isinstance(i, bool) or model_param_status(j.get("params")) == "unknown":
+    if isinstance(i, bool) or params_status(j.get("params")) == "unknown":
         return "grey"
     return "strict"
 
@@ -407,6 +416,15 @@ def check_element(chk, tbl_idx, j, r, case):
     if got not in (want if isinstance(want, tuple) else (want,)):
         chk.monitor_failure("classification", {"class": "request", "want": want, "got": got},
                             f"conforming request answered by {got}, the property requires {want}", case)
+    # the arguments reach the method as sent: nargs reports how many positional arguments and
+    # which keyword arguments it received
+    elif got == "result" and j["method"].rsplit(".", 1)[-1] == "nargs" and "params" in j:
+        p = j["params"]
+        expect = [len(p), []] if isinstance(p, list) else [0, list(p.keys())]
+        if r["result"] != expect:
+            shape = "named" if isinstance(p, dict) else "positional"
+            chk.monitor_failure("params_delivered", {"params": shape, "model_key": isinstance(p, dict) and "__model__" in p},
+                                f"{shape} params did not reach the method as sent: it saw {r['result']}, expected {expect}", case)
 
 
 def is_notification(j):
@@ -424,7 +442,7 @@ def escape_cause(parsed_ok, parsed, kind):
                 causes.add("id_array_or_object")
             if set(j) - KNOWN:
                 causes.add("unknown_member")
-            if has_bad_model(j.get("params")):
+            if params_status(j.get("params")) == "bad":
                 causes.add("invalid_model_param")
         elif element_class(j) in ("strict", "grey") and j.get("id") is not None:
             name = j["method"].rsplit(".", 1)[-1]
@@ -477,7 +495,7 @@ def monitors(chk, tbl_idx, data, parsed_ok, parsed, outcome, log, case):
             if not (isinstance(doc, dict) and doc.get("id") is None and (doc.get("error") or {}).get("code") == -32600):
                 chk.monitor_failure("batch_shape", {"batch": "empty"}, "empty batch not answered by one -32600", case)
             return
-        if any(isinstance(j, dict) and model_param_status(j.get("params")) == "unknown" for j in parsed):
+        if any(isinstance(j, dict) and params_status(j.get("params")) == "unknown" for j in parsed):
             return  # whether such an element is answered depends on pydantic's verdict on the model
         answered = [j for j in parsed if not is_notification(j)]
         rs = doc if isinstance(doc, list) else ([] if doc is None else None)
@@ -698,6 +716,17 @@ def tag_name_cases(jsonrpc):
     tags += ["", "Bogus", "__model__", "object", "dict", "BaseModel", "é"]
     tags = list(dict.fromkeys(tags)) + [5, None, [], {}, True, 1.5, ["Artist"], {"__model__": "Artist"}]
     out = []
+    # named params that themselves have a member called "__model__" (a keyword argument of that
+    # name, not a model): members that would and would not fit the named model
+    for n in sorted(names) + ["Bogus"]:
+        for named in ({"__model__": n}, {"__model__": n, "name": "x"}, {"__model__": n, "uri": "u", "type": "track"},
+                      {"__model__": n, "junk": 1}, {"__model__": n, "tlid": 1}, {"name": "x", "__model__": n, "value": {"__model__": "Artist"}}):
+            out.append((0, enc({"jsonrpc": "2.0", "id": "n1", "method": "o.nargs", "params": named}).encode("utf-8"), "tag_names"))
+            out.append((0, enc({"jsonrpc": "2.0", "id": 2, "method": "core.x.pub", "params": named}).encode("utf-8"), "tag_names"))
+        out.append((0, enc([{"jsonrpc": "2.0", "id": 1, "method": "o.count"},
+                            {"jsonrpc": "2.0", "id": 2, "method": "o.nargs", "params": {"__model__": n, "junk": 1}},
+                            {"jsonrpc": "2.0", "method": "o.nargs", "params": {"__model__": n, "name": "x"}},
+                            {"jsonrpc": "2.0", "id": 3, "method": "o.count"}]).encode("utf-8"), "tag_names"))
     for tag in tags:
         bare = {"__model__": tag}
         full = {"__model__": tag, "uri": "u"}
@@ -849,7 +878,7 @@ def wrapper_stage(chk, jsonrpc):
         if parsed_ok:
             for j_ in (parsed if isinstance(parsed, list) else [parsed]):
                 if isinstance(j_, dict) and "params" in j_:
-                    chk.dist("params_models:" + model_param_status(j_.get("params")))
+                    chk.dist("params_models:" + params_status(j_.get("params")))
         if len(rows) % 400 == 0:
             chk.sample({"stream": stream, "table": tbl_idx, "request": case["text"][:200],
                         "response": outcome[1][:200].decode("utf-8", "replace") if outcome[0] == "bytes" else outcome[0],
